@@ -28,6 +28,46 @@ func runC10(c *Ctx) {
 	r10_10(c, "R10.10")
 	r04_8(c, "R10.6")
 	r10_11(c, "R10.11")
+	r10_12(c, "R10.12")
+}
+
+// R10.12: the walk entry points apply the filter they are given.
+//
+// fsutil.Walk and fsutil.WalkDir build the view and walk it; the FS they walk
+// is the result of NewFilterFS applied to the caller's options, not the bare
+// directory.
+func r10_12(c *Ctx, rule string) {
+	c.R.Rule(rule, "fsutil.Walk / fsutil.WalkDir: the FS whose Walk is called is the (checked) result of NewFilterFS(NewFS(p), opt)")
+	for _, name := range []string{"fsutil.Walk", "fsutil.WalkDir"} {
+		fn := c.Fn(rule, name)
+		if fn == nil {
+			continue
+		}
+		var opt *ssa.Parameter
+		for _, q := range fn.Params {
+			if strings.Contains(eng.TypeStr(q.Type()), "FilterOpt") {
+				opt = q
+			}
+		}
+		n := 0
+		for _, call := range c.P.CallsTo(fn, "(fsutil.FS).Walk") {
+			n++
+			recv := call.Common().Value
+			isFiltered := func(v ssa.Value) bool {
+				cl, ok := v.(*ssa.Call)
+				if !ok || c.P.CalleeName(cl) != "fsutil.NewFilterFS" {
+					return false
+				}
+				return opt != nil && len(cl.Call.Args) == 2 && eng.Strip(cl.Call.Args[1]) == ssa.Value(opt)
+			}
+			ok := c.DerivesFrom(recv, isFiltered, 5)
+			c.R.Check(ok, rule, c.siteName(call)+"/filtered-view", c.pos(call), "walks NewFilterFS(..., opt)", name+" walks a view that was not built by NewFilterFS with the caller's options: include/exclude patterns, follow-paths and the map function are silently ignored")
+		}
+		c.R.Floor(rule, "FS.Walk calls in "+name, n, 1)
+		for _, call := range c.P.CallsTo(fn, "fsutil.NewFilterFS") {
+			c.ObErrChecked(rule+"/checked", call)
+		}
+	}
 }
 
 const pmMatch = "(*github.com/moby/patternmatcher.PatternMatcher).MatchesUsingParentResults"
